@@ -109,8 +109,8 @@ impl Property for C17 {
 
     fn runs(&self, tier: Tier) -> u64 {
         match tier {
-            Tier::Quick => 6 * 16,
-            Tier::Thorough => 6 * 16 * 12,
+            Tier::Quick => 6 * 16 * 4,
+            Tier::Thorough => 6 * 16 * 120,
         }
     }
 
